@@ -19,8 +19,7 @@ TOL = 1e-6
 
 
 def to_unit(value_kg, unit, comp):
-    perm = U.Permeance(value=value_kg, units=KG)
-    return perm if unit == KG else perm.convert(to_units=unit, component=comp)
+    return U.exact_permeance(value_kg, unit, comp.molecular_weight)
 
 
 def curve_class_roundtrip(mix, t, comp, P, unit, comps):
@@ -162,11 +161,40 @@ def judge_mixed_units(case):
     return core.result("normalised", digest=core.digest_of(case), viol=v)
 
 
+def judge_equal_numbers(case):
+    """both components carry the SAME number in the stated unit (so their kg/(m2 h kPa) values differ by the molar masses);
+    several mixtures share the numbers within one worker process."""
+    from fractions import Fraction
+    v = []
+    for mname in case["mixtures"]:
+        mix = U.get_mixture(mname)
+        comps = (mix.first_component, mix.second_component)
+        num, unit, t = case["number"], case["unit"], case["T"]
+        fcomp = [U.Composition(p=x, type="weight") for x in case["xs"]]
+        st, c = core.call(U.DiffusionCurve, mixture=mix, membrane_name="M", feed_temperature=t, feed_compositions=fcomp,
+                          permeances=[(U.Permeance(value=num, units=unit), U.Permeance(value=num * (1 + 0.5 * i), units=unit)) for i in range(len(fcomp))])
+        if st != "ok":
+            v.append(core.viol("C09/curve_from_permeances_raises", "%r" % (c,)))
+            continue
+        for i in range(len(fcomp)):
+            for j in (0, 1):
+                n_ = num if j == 0 else num * (1 + 0.5 * i)
+                f_si = Fraction(1) if unit == "SI" else (Fraction("3.35e-10") if unit == "GPU" else 1 / (Fraction(comps[j].molecular_weight) * 3600))
+                want = float(Fraction(n_) * f_si * Fraction(comps[j].molecular_weight) * 3600)
+                q = c.permeances[i][j]
+                if q.units != KG or not core.close(float(q.value), want, 1e-11):
+                    v.append(core.viol("C09/unit_normalisation", "%s: %r %s for component %d is exposed as %r %s, exact %r" % (mname, n_, unit, j + 1, q.value, q.units, want)))
+                    break
+            if v:
+                break
+    return core.result("normalised", digest=core.digest_of(case), viol=v)
+
+
 def space(tier, seed):
     q = tier == "quick"
     alph = {
         "mixture": ["H2O_EtOH", "MeOH_DMC", "S2", "S5"] if q else list(U.ALL_MIXTURES),
-        "mode": ["vac", ("T", 120.0), ("T", -60.0), ("T", -20.0), ("p", 0.0), ("p", 0.5), ("p", 5.0)] +
+        "mode": ["vac", ("T", 120.0), ("T", -60.0), ("T", -20.0), ("p", 0.0), ("p", 0.004), ("p", 0.5), ("p", 5.0)] +
                 ([] if q else [("T", -5.0), ("p", 30.0), ("p", 100.0)]),
         "P": [(1e-2, 1e-4), (1e-3, 1e-3), (1e-6, 1.0), (1.0, 1e-6)] if q else
              [(a, b) for a in (1e-6, 1e-4, 1e-2, 1.0) for b in (1e-6, 1e-4, 1e-2, 1.0)],
@@ -195,6 +223,9 @@ def main(tier, seed):
     mixed = core.Space("mixed_unit_curves", {"mixture": ["H2O_EtOH", "S2"] if q else ["H2O_EtOH", "MeOH_Toluene", "S2", "S4"], "T": core.lat([313.15, 353.15], seed)[:1 if q else 2],
                                              "xs": [core.lat([0.2, 0.7], seed)], "units": ucomb, "with_fluxes": [False, True]})
     core.run_space(rep, mixed, judge_mixed_units)
+    eq = core.ListSpace("equal_numbers_in_unit", [{"mixtures": ["H2O_EtOH", "MeOH_MTBE", "H2O_iPOH", "S2"], "number": n_, "unit": u_, "T": 333.15, "xs": [0.2, 0.7]}
+                                                 for n_ in (6.29e-7, 2.5e-5, 3.0e2) for u_ in (KG, "SI", "GPU")])
+    core.run_space(rep, eq, judge_equal_numbers, chunk=3)
     three = core.Space("mixed_unit_curves_3pt", {"mixture": ["H2O_EtOH"], "T": [333.15], "xs": [[0.1, 0.5, 0.9]],
                                                  "units": [list(u) for u in itertools.product([KG, "SI", "GPU"], repeat=6)] if not q else
                                                           [[a, a, b, b, c, c] for a in (KG, "SI", "GPU") for b in (KG, "SI", "GPU") for c in (KG, "SI", "GPU")],
@@ -204,7 +235,7 @@ def main(tier, seed):
 
 
 def replay(body):
-    r = (judge_mixed_units if str(body.get("space", "")).startswith("mixed_unit") else judge)(body["case"])
+    r = (judge_equal_numbers if body.get("space") == "equal_numbers_in_unit" else judge_mixed_units if str(body.get("space", "")).startswith("mixed_unit") else judge)(body["case"])
     for v in r["viol"]:
         print("violation key=%s%s: %s" % (v["key"], " [known %s]" % v["known"] if v["known"] else "", v["msg"]))
     print("replayed: outcome=%s violations=%d" % (r["outcome"], len(r["viol"])))
